@@ -37,7 +37,7 @@ SHARD_WATCHDOG = {"quick": 1500, "thorough": 10800}
 
 
 def gen_cases(tier, seed):
-    n = 48 if tier == "quick" else 1600
+    n = 48 if tier == "quick" else 1000
     return [{"i": i, "seed": seed, "tier": tier} for i in range(n)]
 
 
